@@ -2,9 +2,12 @@
 package c16
 
 import (
+	"strings"
+
 	"context"
 	"errors"
 	"fmt"
+	ierrors "github.com/aptpod/iscp-go/errors"
 	"sync"
 	"testing"
 	"time"
@@ -302,7 +305,7 @@ func gen(t *rapid.T) Case {
 var sub = ev.Sub[Case]{Name: "calls", Repeats: 30, Q: 250, T: 6000, Gen: gen, Run: run}
 
 func TestProp(t *testing.T)   { sub.Check(t) }
-func TestReplay(t *testing.T) { ev.ReplayTest(t, sub, subVolume) }
+func TestReplay(t *testing.T) { ev.ReplayTest(t, sub, subVolume, subCloseMid) }
 
 // ---------------------------------------------------------------------------------------------
 // volume: long histories on one connection. The routing tables and inboxes of the call machinery are bounded (1024 entries);
@@ -403,3 +406,124 @@ func TestVolume(t *testing.T) {
 		subVolume.One(t, VolumeCase{Calls: 40, Drain: false, Flood: 1100, Strays: 1})
 	}
 }
+
+// ---------------------------------------------------------------------------------------------
+// Conn.Close while calls are outstanding in each of their phases: not yet acknowledged, acknowledged and waiting for the reply,
+// plain SendCall. Every caller returns promptly with the connection-closed error (seeded change C16/m4: a caller that had its ack
+// and waited for its reply was not woken by Close).
+
+type CloseMidCase struct {
+	Acked    int  `json:"acked"`    // call-and-wait callers whose call is acknowledged, reply withheld
+	Unacked  int  `json:"unacked"`  // call-and-wait callers whose call is not even acknowledged
+	Plain    int  `json:"plain"`    // SendCall callers, not acknowledged
+	Deadline bool `json:"deadline"` // callers use a 5 s deadline instead of context.Background()
+}
+
+func runCloseMid(c CloseMidCase, k *ev.Case) *ev.Failure {
+	w := sim.NewWorld()
+	defer w.Dispose()
+	var mu sync.Mutex
+	ackedSeen := 0
+	w.Broker.Hook = func(inc *sim.Inc, e *sim.Entry) sim.Verdict {
+		if uc, ok := e.Msg.(*message.UpstreamCall); ok {
+			if strings.HasPrefix(string(uc.Payload), "acked") {
+				inc.Send(&message.UpstreamCallAck{CallID: uc.CallID, ResultCode: message.ResultCodeSucceeded, ResultString: "ok"})
+				mu.Lock()
+				ackedSeen++
+				mu.Unlock()
+			}
+			return sim.Handled
+		}
+		return sim.Default
+	}
+	conn, err := w.Connect()
+	if err != nil {
+		return ev.Failf("harness", "connect: %v", err)
+	}
+	type out struct {
+		kind string
+		err  error
+		done bool
+	}
+	total := c.Acked + c.Unacked + c.Plain
+	outs := make([]out, total)
+	var wg sync.WaitGroup
+	start := func(i int, kind string) {
+		outs[i].kind = kind
+		wg.Add(1)
+		go func() {
+			defer wg.Done()
+			ctx := context.Background()
+			if c.Deadline {
+				var cancel context.CancelFunc
+				ctx, cancel = sim.Ctx(5 * time.Second)
+				defer cancel()
+			}
+			payload := []byte(fmt.Sprintf("%s-%d", kind, i))
+			if kind == "plain" {
+				_, outs[i].err = conn.SendCall(ctx, &iscp.UpstreamCall{DestinationNodeID: "dst", Name: "n", Type: "t", Payload: payload})
+			} else {
+				_, outs[i].err = conn.SendCallAndWaitReplayCall(ctx, &iscp.UpstreamCall{DestinationNodeID: "dst", Name: "n", Type: "t", Payload: payload})
+			}
+			outs[i].done = true
+		}()
+	}
+	i := 0
+	for j := 0; j < c.Acked; j++ {
+		start(i, "acked")
+		i++
+	}
+	for j := 0; j < c.Unacked; j++ {
+		start(i, "unacked")
+		i++
+	}
+	for j := 0; j < c.Plain; j++ {
+		start(i, "plain")
+		i++
+	}
+	// the acknowledged callers have their ack (and now wait for a reply that never comes)
+	for dl := time.Now().Add(2 * time.Second); time.Now().Before(dl); time.Sleep(200 * time.Microsecond) {
+		mu.Lock()
+		n := ackedSeen
+		mu.Unlock()
+		if n >= c.Acked {
+			break
+		}
+	}
+	time.Sleep(3 * time.Millisecond)
+	if ok, _ := sim.Call(5*time.Second, func() {
+		ctx, cancel := sim.Ctx(2 * time.Second)
+		defer cancel()
+		conn.Close(ctx)
+	}); !ok {
+		return ev.Failf("C16.3 close-hang", "Conn.Close did not return with %d calls outstanding", total)
+	}
+	finished := make(chan struct{})
+	go func() { wg.Wait(); close(finished) }()
+	select {
+	case <-finished:
+	case <-time.After(2 * time.Second):
+		var stuck []string
+		for i := range outs {
+			if !outs[i].done {
+				stuck = append(stuck, fmt.Sprintf("%s-%d", outs[i].kind, i))
+			}
+		}
+		return ev.Failf("C16.3 caller-survives-close", "2 s after Conn.Close returned these callers are still blocked: %v", stuck)
+	}
+	for i := range outs {
+		if outs[i].err == nil || !errors.Is(outs[i].err, ierrors.ErrConnectionClosed) {
+			return ev.Failf("C16.3 wrong-error-at-close", "caller %s-%d (outstanding when the connection was closed) returned %v, want the connection-closed error", outs[i].kind, i, outs[i].err)
+		}
+	}
+	k.NonTrivial(ev.JSON(c))
+	k.Sample(func() any { return c })
+	return nil
+}
+
+var subCloseMid = ev.Sub[CloseMidCase]{Name: "close-mid-call", Q: 10, T: 200,
+	Gen: func(t *rapid.T) CloseMidCase {
+		return CloseMidCase{Acked: rapid.IntRange(0, 3).Draw(t, "acked"), Unacked: rapid.IntRange(0, 3).Draw(t, "unacked"), Plain: rapid.IntRange(0, 2).Draw(t, "plain"), Deadline: rapid.Bool().Draw(t, "deadline")}
+	}, Run: runCloseMid}
+
+func TestCloseMid(t *testing.T) { subCloseMid.Check(t) }
